@@ -15,13 +15,15 @@ NAMES = ["a", "b", "c", "d"]
 
 # (typ, [default templates]); default templates are tagged tuples resolved per position
 TYPES_DEFAULTS = [
-    (ABSENT, [ABSENT, ("int", 5), ("int", -3), ("float", 0.5), ("bool", True), ("str", "foo"), ("code", "np.empty({i})")]),
+    (ABSENT, [ABSENT, ("int", 5), ("int", -3), ("float", 0.5), ("float", 2.0), ("bool", True), ("str", "foo"),
+              ("code", "np.empty({i})")]),
     ("str", [ABSENT, ("str", "foo"), ("str", ""), ("str", "two words"), ("str", "3"), ("str", "a.b")]),
     ("int", [ABSENT, ("int", 5), ("int", 0), ("int", -3)]),
     ("float", [ABSENT, ("float", 0.5), ("float", -1.5), ("float", 2.0), ("float", 1e-07)]),
     ("bool", [ABSENT, ("bool", True), ("bool", False)]),
     ("Optional[str]", [ABSENT, ("none",), ("str", "foo")]),
-    ("Optional[int]", [ABSENT, ("none",), ("int", 5)]),
+    ("Optional[int]", [ABSENT, ("none",), ("int", 5), ("int", 0)]),
+    ("Optional[float]", [ABSENT, ("none",), ("float", 2.0), ("float", -1.5)]),
     ("List[str]", [ABSENT, ("code", "['x', 'y{i}']"), ("code", "[]")]),
     ("List[int]", [ABSENT, ("code", "[1, {i}]")]),
     ("Literal['x', 'y']", [ABSENT, ("strlit", "x")]),
@@ -31,6 +33,11 @@ TYPES_DEFAULTS = [
     ("np.ndarray", [ABSENT, ("code", "np.empty({i})")]),
 ]
 
+LONG = ("a deliberately long description of {n} that runs well past the configured line width so that wrapping, "
+        "when it is enabled, has to break it into several lines of text")
+LONG_RET = ("a deliberately long description of the result that runs well past the configured line width so that "
+            "wrapping, when it is enabled, has to break it into several lines of text")
+
 PROSE = [
     ABSENT,
     "the {n}",
@@ -38,6 +45,8 @@ PROSE = [
     "uses 3.5 units, e.g. `x{n}`",
     "the default behaviour of {n}",
     "first sentence of {n}. second (see notes) sentence",
+    LONG,
+    "Optional label for {n}",
 ]
 
 A_FULL = [(t, d, p) for t, ds in TYPES_DEFAULTS for d in ds for p in PROSE]
@@ -55,6 +64,7 @@ A_RED = [
     ("int", ("int", 5), ABSENT),
     ("np.ndarray", ("code", "np.empty({i})"), "the {n}"),
     ("Union[int, str]", ("str", "foo"), "uses 3.5 units, e.g. `x{n}`"),
+    ("str", ("str", "foo"), LONG),
 ]
 
 # return entries: (typ, prose, default)
@@ -65,6 +75,7 @@ RETURNS = [
     ("int", "the result", ABSENT),
     ("int", "the result", ("code", "a + 1")),
     ("Tuple[int, str]", "the result.", ("code", "(1, 'x')")),
+    ("int", LONG_RET, ("code", "a + 1")),
 ]
 RETURNS_RED = [RETURNS[0], RETURNS[3], RETURNS[5]]
 
@@ -117,7 +128,7 @@ def prose_kind(p):
     return {ABSENT: "absent", "the {n}": "plain", "the {n}.": "stop", "uses 3.5 units, e.g. `x{n}`": "tricky",
             "the default behaviour of {n}": "word_default",
             "first sentence of {n}. second (see notes) sentence": "two_sentences", "the result": "plain",
-            "the result.": "stop"}[p]
+            "the result.": "stop", LONG: "long", LONG_RET: "long", "Optional label for {n}": "starts_optional"}[p]
 
 
 def make_param(atom, pos):
